@@ -293,14 +293,18 @@ def run_impl(pz, case, transform):
                                 attrs={'res': 0.25, 'crs': 'EPSG:4326', 'nodata': -1})
         return xr.DataArray(x)
     da, dm = wrap(a), None if m is None else wrap(m)
-    before = (a.tobytes(), None if m is None else m.tobytes(), None if tr is None else repr(tr), da.copy(deep=True),
-              None if dm is None else dm.copy(deep=True))
+    class Snap:       # cheap snapshot of the xarray metadata
+        def __init__(self, d):
+            self.dims, self.attrs, self.name = tuple(d.dims), dict(d.attrs), d.name
+            self.coords = {c: np.array(d.coords[c].values, copy=True) for c in d.coords}
+    before = (a.tobytes(), None if m is None else m.tobytes(), None if tr is None else repr(tr), Snap(da),
+              None if dm is None else Snap(dm))
     kw = {} if 'column_name' not in case else {'column_name': case['column_name']}
     col, polys = pz.polygonize(da, mask=dm, connectivity=case['connectivity'], transform=tr, return_type='numpy', **kw)
     # inputs (data, mask, transform, coords, attrs) must be unchanged after the call
     if a.tobytes() != before[0] or (m is not None and m.tobytes() != before[1]) or (tr is not None and repr(tr) != before[2]) \
             or list(da.dims) != list(before[3].dims) or da.attrs != before[3].attrs or da.name != before[3].name \
-            or any(not np.array_equal(da.coords[c].values, before[3].coords[c].values) for c in before[3].coords) \
+            or any(not np.array_equal(da.coords[c].values, before[3].coords[c]) for c in before[3].coords) \
             or (dm is not None and (dm.attrs != before[4].attrs or list(dm.dims) != list(before[4].dims))):
         raise InputMutated('polygonize modified its inputs (raster / mask / transform / coords / attrs)')
     col = [v.item() if hasattr(v, 'item') else v for v in col]
@@ -881,7 +885,7 @@ def check_case(ctx, pz, case, pending, use_model=True):
             ctx.violation('oracle', 'transform %r is not applied to every vertex of the untransformed output' % (case['transform'],),
                           dict(case, got_polygons=polyst, untransformed=polys))
     regions = None
-    if case['nx'] >= 2:
+    if case['nx'] >= 2 and not case.get('no_regions'):
         try:
             with wd.watch(case):
                 regions = run_impl_regions(pz, case)
@@ -917,6 +921,60 @@ def flush(ctx, pending):
     del pending[:]
 
 
+LARGE_BASES = {
+    'int8': [120], 'uint8': [250], 'int16': [32760], 'uint16': [65530],
+    'int32': [100000, 250000, 2 ** 24, 2 ** 31 - 3], 'uint32': [100000, 250000, 2 ** 24, 2 ** 31 - 3, 2 ** 32 - 5],
+    'int64': [100000, 250000, 2 ** 24, 2 ** 31 - 3, 2 ** 32 - 5, 2 ** 53 - 2, 2 ** 63 - 4, -(2 ** 63)],
+    'uint64': [250000, 2 ** 32 - 5, 2 ** 53 - 2, 2 ** 63 - 4, 2 ** 64 - 4],
+}
+
+
+def large_ids_stream(ctx, pz, pending):
+    """appended: integer rasters of every width and signedness filled with consecutive LARGE ids (neighbours differ by 1, i.e. by far less
+    than any relative float tolerance): exact equality must keep them apart and every cell's id must be recovered exactly; and the float
+    twin: neighbours just inside (same class) vs just outside (different class) the documented tolerance atol=1e-8, rtol=1e-5"""
+    rng = ctx.rng
+    # quick: uint16 (whose ids cannot reach 1e5) only when it is this seed's extra dtype anyway, i.e. already compiled
+    dtypes = (['int32', 'int64', 'uint32', 'uint64'] + (['uint16'] if EXTRA_DTYPES[ctx.seed % len(EXTRA_DTYPES)] == 'uint16' else [])) \
+        if ctx.quick() else list(LARGE_BASES)
+    pats = [('stripes', lambda i, j, k: i % k), ('rows', lambda i, j, k: j % k), ('checker', lambda i, j, k: (i + j) % k),
+            ('random', None)]
+    for dtype in dtypes:
+        for bi, base in enumerate(LARGE_BASES[dtype]):
+            for pi, (pname, f) in enumerate(pats):
+                if ctx.quick() and pi != (bi + len(dtype)) % len(pats):
+                    continue            # quick: one pattern per (dtype, base), rotating; thorough: all
+                for conn in ((4, 8) if not ctx.quick() else (rng.choice([4, 8]),)):
+                    k = 3
+                    ny, nx = rng.choice([(3, 4), (4, 3), (2, 5), (5, 2)])
+                    grid = [[base + (f(i, j, k) if f else rng.randrange(k)) for i in range(nx)] for j in range(ny)]
+                    case = dict(family='large-ids', ny=ny, nx=nx, values=grid, dtype=dtype, mask=None, mask_dtype=None, mask_kind='none',
+                                connectivity=conn, transform=None, no_regions=True)
+                    ctx.count('large-ids/%s/%s' % (dtype, pname))
+                    check_case(ctx, pz, case, pending)
+        # a single column (the nx == 1 padding path) of consecutive ids (quick: only where the (dtype, bool mask) kernel is compiled anyway)
+        if ctx.quick() and dtype not in ('int32', 'int64'):
+            continue
+        base = LARGE_BASES[dtype][-1] if LARGE_BASES[dtype][-1] > 0 else LARGE_BASES[dtype][0]
+        case = dict(family='large-ids', ny=4, nx=1, values=[[base], [base + 1], [base + 2], [base + 1]], dtype=dtype, mask=None,
+                    mask_dtype=None, mask_kind='none', connectivity=4, transform=None)
+        ctx.count('large-ids/%s/column' % dtype)
+        check_case(ctx, pz, case, pending)
+    # float twin: members of a class differ by 0.009 (inside 1e-8 + 1e-5*1000), neighbouring classes by >= 0.011 (outside)
+    for dtype, mk_, md in (('float64', None, None), ('float32', 'ones', 'int64')):
+        for pname, f in pats[:3]:
+            ny, nx = 3, 5
+            cls = [[f(i, j, 3) for i in range(nx)] for j in range(ny)]
+            grid = [[1000.0 + 0.02 * c + rng.choice([0.0, 0.009]) for c in row] for row in cls]
+            if dtype == 'float32':
+                grid = [[float(np.float32(v)) for v in row] for row in grid]
+            case = dict(family='tolerance-edge', ny=ny, nx=nx, values=grid, dtype=dtype, mask=None if mk_ is None else [[1] * nx] * ny,
+                        mask_dtype=md, mask_kind='none' if mk_ is None else 'all-true', connectivity=rng.choice([4, 8]), transform=None,
+                        classes=cls)
+            ctx.count('tolerance-edge/%s' % dtype)
+            check_case(ctx, pz, case, pending)
+
+
 def theme_stream(ctx, pz, pending):
     """appended AFTER the older streams (their rng draws are unchanged): layouts reversed / non-writeable per argument, float
     extremes through tolerance classes, call sequences and derived rasters, parameter / coordinate variants, degenerate rasters,
@@ -932,7 +990,9 @@ def theme_stream(ctx, pz, pending):
         ctx.count(family)
         return case
     # 1. memory layout: reversed views and non-writeable arrays, each argument separately
-    for lv, lm in (('R', None), ('R', 'C'), ('C', 'R'), ('R', 'R'), ('F', 'R'), ('RO', None), ('RO', 'RO'), ('C', 'RO'), ('RO', 'C')):
+    # (each read-only combination is its own Numba signature: the mixed ones run in the thorough tier only)
+    for lv, lm in (('R', None), ('R', 'C'), ('C', 'R'), ('R', 'R'), ('F', 'R'), ('RO', None), ('RO', 'RO')) + \
+            ((('C', 'RO'), ('RO', 'C')) if not ctx.quick() else ()):
         check_case(ctx, pz, mk('theme/layout', base, mask=None if lm is None else bmask, mask_dtype=None if lm is None else 'bool',
                                conn=rng.choice([4, 8]), layout=lv, mask_layout=lm or 'C'), pending)
     # 2. float extremes: values not representable in float32, > 2**24 / 2**53, huge, tiny.  _is_close is a documented
@@ -1154,6 +1214,8 @@ def run(ctx):
             flush(ctx, pending)
     flush(ctx, pending)
     theme_stream(ctx, pz, pending)
+    flush(ctx, pending)
+    large_ids_stream(ctx, pz, pending)
     flush(ctx, pending)
     ctx.exhaustive = False
     ctx.notes.append('exhaustive sub-domain: every 0/1 raster of every shape with <= %d cells and every {masked,0,1} '
